@@ -48,6 +48,10 @@ CLAIMS = {
          "Decides structural necessary conditions for ALL inputs: every Aggregate oneof member has an arm; no guard or size counter in the aggregation code is vacuous; finalisers index nothing without a length guard (empty input); the histogram membership test equals b <= v < b+w on every ordering of (v, b, w), the first bucket is floor(min/w)*w and the loop includes max's bucket; count increments once per row; each aggregation reads only its own channel. Decides none of the numeric content.",
          "Trusted: go/types, go/ssa; the ordering-domain evaluator interprets comparison expressions only.",
          "DESIGN.md §4 C19"),
+ "C13": ("process-network close-discipline analysis (goroutine literals as processes, channel keys with parameter binding; must-close dataflow over go/cfg)",
+         "Decides for ALL input lengths and schedules the clause 'closes its output exactly when its input is exhausted' for the six internal combinators (serializer/deserializer pools, plugin channel mux, lookup batcher, two-stage lookup, jump queue): every created/returned channel is closed exactly once by one process on every exit, other producers are joined before the close, every input is ranged to exhaustion by exactly one process without early exit, every channel has a single consumer. Does not decide order or multiplicity of items.",
+         "Trusted: go/types, go/cfg; one named exception (copyPipeline) with its reason.",
+         "DESIGN.md §4 C13"),
 }
 
 PENDING_REASON = "check not built yet in this round; see DESIGN.md §4 for the structural clause planned (static analysis)"
